@@ -45,7 +45,20 @@ def by_target(x):
 
 
 def out_name(t, d):
-    return {"dir": "t%d.dir" % t, "txt": "t%d.txt" % t}.get(d["kind"], "t%d.out" % t)
+    on = d.get("on", "out")
+    if d["kind"] == "dir":
+        return "t%d.dir" % t if on == "out" else "t%d.%s.dir" % (t, on)
+    if d["kind"] == "txt":
+        return "t%d.txt" % t if on == "out" else "t%d.%s.txt" % (t, on)
+    return "t%d.%s" % (t, on)
+
+
+def name_of(of):
+    """Spec NameOf term -> the basename a command sees: <<"src", f>> or <<"out", t, kind, n>>."""
+    if of[0] == "src":
+        return of[1] + ".txt"
+    kind = {"file": "cat", "text": "txt", "dir": "dir"}[of[2]]
+    return out_name(of[1], dict(kind=kind, on=of[3]))
 
 
 EMIT = ('emit() { if [ -d "$1" ]; then for e in $(ls "$1"); do printf "%s=" "$e"; cat "$1/$e"; printf ";"; done; '
@@ -69,6 +82,8 @@ def render_target(t, d, logpath, extra=None):
         body = EMIT + '; { printf "%s("; for s in $SRCS; do emit "$s"; printf ","; done; printf ")"; } > "$OUT"' % k
     elif d["kind"] == "const":
         body = 'printf "%s()" > "$OUT"' % k
+    elif d["kind"] == "names":
+        body = '{ printf "%s("; for s in $SRCS; do printf "%%s," "$(basename "$s")"; done; printf ")"; } > "$OUT"' % k
     elif d["kind"] == "first":
         body = EMIT + ('; set -- $SRCS; { printf "%s("; if [ $# -gt 0 ]; then emit "$1"; printf ","; fi; printf ")"; } > "$OUT"' % k)
     elif d["kind"] == "dir":
@@ -101,6 +116,8 @@ def emit_item(it):
     """What `emit` prints for one $SRCS entry described by a spec term."""
     if it["kind"] == "src":
         return it["c"]
+    if it["kind"] == "name":
+        return name_of(it["of"])
     if it["kind"] == "file":
         return term_bytes(it)
     if it["kind"] == "text":
